@@ -1,4 +1,5 @@
-(* C16: proofs about the model in SigDef.v *)
+(* C16: proofs about the model in SigDef.v (current code, /repo at 9149f75; the old_ lemmas at the end document
+   the behaviour before the fixes) *)
 From Coq Require Import NArith ZArith List Bool Lia ZifyBool ZifyN ZifyNat.
 From JLS Require Import Generated SigDef.
 Import ListNotations.
@@ -237,8 +238,9 @@ Proof.
       assert (D : forall j, 1 <= j -> j <= epd -> e mod j = 0 -> j <= e).
       { intros j J1 J2 J3. apply mod0_le; try assumption. lia. }
       repeat split; try assumption; lia.
-    + destruct (sd_fit_loop 256 e epd) as [k|f] eqn:El.
+    + destruct (sd_fit_loop 256 e epd) as [k|rc|f] eqn:El.
       * eapply fit_loop_spec. exact El.
+      * apply fit_scan_largest; assumption.
       * apply fit_scan_largest; assumption.
 Qed.
 
@@ -258,36 +260,31 @@ Proof.
   - apply N.eqb_neq in E0. apply fit_fast_eq; [exact Hr|lia].
 Qed.
 
+
 (* ------------------------------------------------------------------ *)
-(* rounding with and without wrap-around                               *)
+(* rounding (current code: 64-bit, error when the result exceeds UINT32_MAX) *)
+
+Lemma round_up_ok : forall x m, m <> 0 -> (x + m - 1) / m * m <= U32MAX ->
+  sd_round_up x m = SdOk ((x + m - 1) / m * m).
+Proof.
+  intros x m Hm H. unfold sd_round_up.
+  destruct (m =? 0) eqn:E; [apply N.eqb_eq in E; contradiction|].
+  cbv zeta. destruct (U32MAX <? (x + m - 1) / m * m) eqn:L; [apply N.ltb_lt in L; lia|reflexivity].
+Qed.
+
+Lemma round_up_err : forall x m, m <> 0 -> U32MAX < (x + m - 1) / m * m ->
+  sd_round_up x m = SdErr JLS_ERROR_PARAMETER_INVALID.
+Proof.
+  intros x m Hm H. unfold sd_round_up.
+  destruct (m =? 0) eqn:E; [apply N.eqb_eq in E; contradiction|].
+  cbv zeta. destruct (U32MAX <? (x + m - 1) / m * m) eqn:L; [reflexivity|apply N.ltb_ge in L; lia].
+Qed.
 
 Lemma round_up_lt : forall x m r, sd_round_up x m = SdOk r -> r < U32.
 Proof.
   intros x m r H. unfold sd_round_up in H. destruct (m =? 0); [discriminate|].
-  injection H as <-. unfold u32. apply N.mod_upper_bound. discriminate.
-Qed.
-
-Lemma round_up_exact : forall x m, m <> 0 -> 1 <= x + m -> x + m - 1 < U32 ->
-  sd_round_up x m = SdOk ((x + m - 1) / m * m).
-Proof.
-  intros x m Hm H1 Hlt. unfold sd_round_up.
-  destruct (m =? 0) eqn:E; [apply N.eqb_eq in E; contradiction|].
-  f_equal.
-  assert (E1 : u32 (x + m + (U32 - 1)) = x + m - 1).
-  { unfold u32, U32 in *. lia. }
-  rewrite E1. apply u32_small.
-  pose proof (div_mul_le (x + m - 1) m). lia.
-Qed.
-
-Lemma round_up_wraps : forall x m, m <> 0 -> x < U32 -> m < U32 -> U32 <= x + m - 1 ->
-  sd_round_up x m = SdOk 0.
-Proof.
-  intros x m Hm Hx Hmr Hge. unfold sd_round_up.
-  destruct (m =? 0) eqn:E; [apply N.eqb_eq in E; contradiction|].
-  f_equal.
-  assert (E1 : u32 (x + m + (U32 - 1)) = x + m - 1 - U32).
-  { unfold u32, U32 in *. lia. }
-  rewrite E1. rewrite N.div_small by lia. reflexivity.
+  cbv zeta in H. destruct (U32MAX <? (x + m - 1) / m * m) eqn:L; [discriminate|].
+  injection H as <-. apply N.ltb_ge in L. unfold U32MAX, U32 in *. lia.
 Qed.
 
 (* ------------------------------------------------------------------ *)
@@ -298,38 +295,29 @@ Ltac unfold_consts :=
          SUMMARY_DECIMATE_FACTOR_MIN in *.
 
 Lemma width_facts : forall w, In w sd_widths ->
-  w <> 0 /\ sd_multiple w <> 0 /\ sd_multiple w <= 256 /\
-  (forall s, s mod sd_multiple w = 0 ->
-     (s * w) mod 8 = 0 /\
-     ((SAMPLE_SIZE_BYTES_MAX * 8) mod w = 0 -> (s * w) mod (SAMPLE_SIZE_BYTES_MAX * 8) = 0) /\
-     (w <> 24 -> (s * w) mod (SAMPLE_SIZE_BYTES_MAX * 8) = 0)) /\
-  (forall s, w <> 24 ->
-     ((SAMPLE_SIZE_BYTES_MAX * 8) mod w = 0 -> (s * w) mod (SAMPLE_SIZE_BYTES_MAX * 8) = 0) ->
-     s mod sd_multiple w = 0).
+  w <> 0 /\ sd_multiple w <> 0 /\
+  (forall s, s mod sd_multiple w = 0 <-> (s * w) mod (SAMPLE_SIZE_BYTES_MAX * 8) = 0) /\
+  (forall s, (s * w) mod (SAMPLE_SIZE_BYTES_MAX * 8) = 0 -> (s * w) mod 8 = 0).
 Proof.
   intros w H.
   cbn [In sd_widths] in H.
   destruct H as [H|[H|[H|[H|[H|[H|[H|H]]]]]]]; [subst w ..|contradiction];
   (split; [discriminate|]);
-  (split; [discriminate|]);
   (split; [vm_compute; discriminate|]);
   split; intros s; change (SAMPLE_SIZE_BYTES_MAX * 8) with 256;
-  match goal with |- context [sd_multiple ?w] =>
+  try match goal with |- context [sd_multiple ?w] =>
      let v := eval vm_compute in (sd_multiple w) in change (sd_multiple w) with v end;
-  match goal with |- context [256 mod ?w] =>
-     let v := eval vm_compute in (256 mod w) in change (256 mod w) with v end;
-  intros; try lia.
+  lia.
 Qed.
 
-Lemma table_some_or_24 : forall w, In w sd_widths ->
-  w = 24 \/ exists t, sd_table w = Some t /\
-    spd t <> 0 /\ sdf t <> 0 /\ eps t <> 0 /\ sumdf t <> 0 /\ anno t <> 0 /\ utc t <> 0 /\
-    spd t < U32 /\ sdf t < U32 /\ eps t < U32 /\ sumdf t < U32 /\ anno t < U32 /\ utc t < U32.
+Lemma table_some : forall w, In w sd_widths ->
+  exists t, sd_table w = Some t /\
+    spd t <> 0 /\ sdf t <> 0 /\ eps t <> 0 /\ sumdf t <> 0 /\ sd_anno t <> 0 /\ sd_utc t <> 0 /\
+    spd t < U32 /\ sdf t < U32 /\ eps t < U32 /\ sumdf t < U32 /\ sd_anno t < U32 /\ sd_utc t < U32.
 Proof.
   intros w H. cbn [In sd_widths] in H.
   destruct H as [H|[H|[H|[H|[H|[H|[H|H]]]]]]]; [subst w ..|contradiction];
-  try (left; reflexivity);
-  right; eexists; (split; [reflexivity|]); vm_compute; repeat split; try discriminate; reflexivity.
+  eexists; (split; [reflexivity|]); vm_compute; repeat split; try discriminate; reflexivity.
 Qed.
 
 Lemma take_nz : forall x t, x <> 0 -> sd_take x t = x.
@@ -345,28 +333,48 @@ Qed.
 Lemma defaults_in_range : forall w d, In w sd_widths -> in_range d -> in_range (sd_defaults w d).
 Proof.
   intros w d Hw (A & B & C & D & E & F).
-  destruct (table_some_or_24 w Hw) as [->|(t & Ht & _ & _ & _ & _ & _ & _ & T1 & T2 & T3 & T4 & T5 & T6)].
-  - cbn. repeat split; assumption.
-  - unfold sd_defaults. rewrite Ht. unfold in_range. cbn [spd sdf eps sumdf anno utc].
-    repeat split;
-    match goal with |- sd_take ?x ?y < _ => destruct (take_cases x y) as [[_ ->]|[_ ->]]; assumption end.
+  destruct (table_some w Hw) as (t & Ht & _ & _ & _ & _ & _ & _ & T1 & T2 & T3 & T4 & T5 & T6).
+  unfold sd_defaults, sd_defaults_with. rewrite Ht. unfold in_range. cbn [spd sdf eps sumdf sd_anno sd_utc].
+  repeat split;
+  match goal with
+  | |- sd_take ?x ?y < _ => destruct (take_cases x y) as [[_ ->]|[_ ->]]; assumption
+  | |- N.max (sd_take ?x ?y) _ < _ =>
+      destruct (take_cases x y) as [[_ ->]|[_ ->]]; unfold_consts; unfold U32 in *; lia
+  end.
+Qed.
+
+Lemma defaults_nonzero : forall w d, In w sd_widths ->
+  let d1 := sd_defaults w d in
+  spd d1 <> 0 /\ sdf d1 <> 0 /\ eps d1 <> 0 /\ sumdf d1 <> 0 /\
+  SUMMARY_DECIMATE_FACTOR_MIN <= sd_anno d1 /\ SUMMARY_DECIMATE_FACTOR_MIN <= sd_utc d1.
+Proof.
+  intros w d Hw.
+  destruct (table_some w Hw) as (t & Ht & N1 & N2 & N3 & N4 & N5 & N6 & _).
+  unfold sd_defaults, sd_defaults_with. rewrite Ht. cbn [spd sdf eps sumdf sd_anno sd_utc].
+  repeat split;
+  match goal with
+  | |- sd_take ?x ?y <> 0 => destruct (take_cases x y) as [[_ ->]|[? ->]]; assumption
+  | |- _ <= N.max _ _ => apply N.le_max_r
+  end.
 Qed.
 
 Lemma defaults_fixed : forall w d,
-  spd d <> 0 -> sdf d <> 0 -> eps d <> 0 -> sumdf d <> 0 -> anno d <> 0 -> utc d <> 0 ->
+  spd d <> 0 -> sdf d <> 0 -> eps d <> 0 -> sumdf d <> 0 ->
+  SUMMARY_DECIMATE_FACTOR_MIN <= sd_anno d -> SUMMARY_DECIMATE_FACTOR_MIN <= sd_utc d ->
   sd_defaults w d = d.
 Proof.
-  intros w d A B C D E F. unfold sd_defaults. destruct (sd_table w) as [t|]; [|reflexivity].
-  rewrite !take_nz by assumption. destruct d; reflexivity.
+  intros w d A B C D E F. unfold sd_defaults, sd_defaults_with. destruct (sd_table w) as [t|]; [|reflexivity].
+  cbn [spd sdf eps sumdf sd_anno sd_utc].
+  assert (sd_anno d <> 0) by (unfold_consts; lia). assert (sd_utc d <> 0) by (unfold_consts; lia).
+  rewrite !take_nz by assumption.
+  rewrite (N.max_l (sd_anno d)) by exact E. rewrite (N.max_l (sd_utc d)) by exact F.
+  destruct d; reflexivity.
 Qed.
 
 Lemma defaults_idem : forall w d, In w sd_widths -> sd_defaults w (sd_defaults w d) = sd_defaults w d.
 Proof.
-  intros w d Hw.
-  destruct (table_some_or_24 w Hw) as [->|(t & Ht & N1 & N2 & N3 & N4 & N5 & N6 & _)].
-  - reflexivity.
-  - apply defaults_fixed; unfold sd_defaults; rewrite Ht; cbn [spd sdf eps sumdf anno utc];
-    match goal with |- sd_take ?x ?y <> 0 => destruct (take_cases x y) as [[_ ->]|[? ->]]; assumption end.
+  intros w d Hw. destruct (defaults_nonzero w d Hw) as (A & B & C & D & E & F).
+  apply defaults_fixed; assumption.
 Qed.
 
 Lemma align_depends_on_defaults : forall w d1 d2,
@@ -380,256 +388,273 @@ Lemma align_fast_eq : forall w d, sd_align_fast w d = sd_align w d.
 Proof.
   intros w d. unfold sd_align_fast, sd_align_fast_info, sd_align.
   destruct (w =? 0); [reflexivity|].
-  destruct (sd_round_up (N.max (sdf (sd_defaults w d)) SAMPLE_DECIMATE_FACTOR_MIN) (sd_multiple w)) as [sdf1|f]; [|reflexivity].
+  destruct (sd_round_up (N.max (sdf (sd_defaults w d)) SAMPLE_DECIMATE_FACTOR_MIN) (sd_multiple w)) as [sdf1|rc|f]; [|reflexivity..].
   cbn [sd_bind].
   destruct (sd_round_up (N.max (eps (sd_defaults w d)) ENTRIES_PER_SUMMARY_MIN)
-                        (N.max (sumdf (sd_defaults w d)) SUMMARY_DECIMATE_FACTOR_MIN)) as [eps1|f] eqn:Ee; [|reflexivity].
+                        (N.max (sumdf (sd_defaults w d)) SUMMARY_DECIMATE_FACTOR_MIN)) as [eps1|rc|f] eqn:Ee; [|reflexivity..].
   cbn [sd_bind].
-  destruct (sd_round_up (N.max (spd (sd_defaults w d)) SAMPLES_PER_DATA_MIN) sdf1) as [spd1|f]; [|reflexivity].
+  destruct (sd_round_up (N.max (spd (sd_defaults w d)) SAMPLES_PER_DATA_MIN) sdf1) as [spd1|rc|f]; [|reflexivity..].
   cbn [sd_bind].
   destruct (sdf1 =? 0); [reflexivity|].
   rewrite fit_eq by (eapply round_up_lt; exact Ee).
-  destruct (sd_fit eps1 (spd1 / sdf1)) as [k|f]; reflexivity.
+  destruct (sd_fit eps1 (spd1 / sdf1)) as [k|rc|f]; [|reflexivity..].
+  cbn [sd_bind].
+  destruct (sd_block_too_big w (u32 (sdf1 * k))); [reflexivity|].
+  destruct (sd_summary_too_big eps1); reflexivity.
 Qed.
 
 (* ------------------------------------------------------------------ *)
-(* the guarded normal form                                             *)
+(* the exact behaviour of sd_align                                     *)
 
-Definition sd_eps1 (w : N) (d : sigdef) : N :=
+Definition sd_sdf0 (w : N) (d : sd_sigdef) : N := N.max (sdf (sd_defaults w d)) SAMPLE_DECIMATE_FACTOR_MIN.
+Definition sd_sdf1 (w : N) (d : sd_sigdef) : N :=
+  (sd_sdf0 w d + sd_multiple w - 1) / sd_multiple w * sd_multiple w.
+Definition sd_spd0 (w : N) (d : sd_sigdef) : N := N.max (spd (sd_defaults w d)) SAMPLES_PER_DATA_MIN.
+Definition sd_eps0 (w : N) (d : sd_sigdef) : N := N.max (eps (sd_defaults w d)) ENTRIES_PER_SUMMARY_MIN.
+Definition sd_sumdf1 (w : N) (d : sd_sigdef) : N := N.max (sumdf (sd_defaults w d)) SUMMARY_DECIMATE_FACTOR_MIN.
+Definition sd_eps1 (w : N) (d : sd_sigdef) : N :=
   (sd_eps0 w d + sd_sumdf1 w d - 1) / sd_sumdf1 w d * sd_sumdf1 w d.
-Definition sd_spd1 (w : N) (d : sigdef) : N :=
+Definition sd_spd1 (w : N) (d : sd_sigdef) : N :=
   (sd_spd0 w d + sd_sdf1 w d - 1) / sd_sdf1 w d * sd_sdf1 w d.
+Definition sd_k (w : N) (d : sd_sigdef) : N := sd_fit_fast (sd_eps1 w d) (sd_spd1 w d / sd_sdf1 w d).
+Definition sd_spd2 (w : N) (d : sd_sigdef) : N := sd_sdf1 w d * sd_k w d.
+
+(* exactly the definitions the current code accepts *)
+Definition sd_accepts (w : N) (d : sd_sigdef) : Prop :=
+  sd_sdf1 w d <= U32MAX /\ sd_eps1 w d <= U32MAX /\ sd_spd1 w d <= U32MAX /\
+  sd_spd2 w d * w / 8 <= U32MAX / 2 /\
+  sd_eps1 w d * JLS_SUMMARY_FSR_COUNT * SD_SIZEOF_DOUBLE <= U32MAX / 2.
+
+Definition sd_normal (w : N) (d : sd_sigdef) : sd_sigdef :=
+  mkSigDef (sd_spd2 w d) (sd_sdf1 w d) (sd_eps1 w d) (sd_sumdf1 w d)
+           (sd_anno (sd_defaults w d)) (sd_utc (sd_defaults w d)).
 
 Lemma mins : forall w d,
   10 <= sd_sdf0 w d /\ 10 <= sd_spd0 w d /\ 10 <= sd_eps0 w d /\ 10 <= sd_sumdf1 w d.
 Proof. intros. unfold sd_sdf0, sd_spd0, sd_eps0, sd_sumdf1. unfold_consts. lia. Qed.
 
-Lemma align_guarded_form : forall w d, In w sd_widths ->
-  guard_sdf w d -> guard_spd w d -> guard_eps w d ->
-  exists k, LargestDiv (sd_eps1 w d) (sd_spd1 w d / sd_sdf1 w d) k /\
-    sd_spd1 w d mod sd_sdf1 w d = 0 /\ sd_sdf1 w d * k <= sd_spd1 w d /\ sd_spd1 w d < U32 /\
-    sd_align w d = SdOk (mkSigDef (sd_sdf1 w d * k) (sd_sdf1 w d) (sd_eps1 w d) (sd_sumdf1 w d)
-                                   (anno (sd_defaults w d)) (utc (sd_defaults w d))).
+(* facts about the intermediate values, independent of acceptance *)
+Lemma normal_facts : forall w d, In w sd_widths -> sd_eps1 w d < U32 ->
+  sd_sdf1 w d mod sd_multiple w = 0 /\ 10 <= sd_sdf1 w d /\
+  sd_eps1 w d mod sd_sumdf1 w d = 0 /\ 10 <= sd_eps1 w d /\ 10 <= sd_sumdf1 w d /\
+  sd_spd1 w d mod sd_sdf1 w d = 0 /\ 10 <= sd_spd1 w d /\
+  1 <= sd_spd1 w d / sd_sdf1 w d /\
+  LargestDiv (sd_eps1 w d) (sd_spd1 w d / sd_sdf1 w d) (sd_k w d) /\
+  sd_spd2 w d <= sd_spd1 w d.
 Proof.
-  intros w d Hw G1 G2 G3.
-  destruct (width_facts w Hw) as (Hw0 & Hm0 & Hm256 & _ & _).
+  intros w d Hw He.
+  destruct (width_facts w Hw) as (Hw0 & Hm0 & _ & _).
   destruct (mins w d) as (M1 & M2 & M3 & M4).
-  unfold guard_sdf, guard_spd, guard_eps in *.
   pose proof (round_spec (sd_sdf0 w d) (sd_multiple w) Hm0) as (R1 & R2 & R3).
   fold (sd_sdf1 w d) in R1, R2, R3.
-  assert (Hs0 : sd_sdf1 w d <> 0) by lia.
-  assert (Hu0 : sd_sumdf1 w d <> 0) by lia.
+  assert (Hs0 : sd_sdf1 w d <> 0) by (clear - R2 M1; lia).
+  assert (Hu0 : sd_sumdf1 w d <> 0) by (clear - M4; lia).
   pose proof (round_spec (sd_spd0 w d) (sd_sdf1 w d) Hs0) as (S1 & S2 & S3).
   fold (sd_spd1 w d) in S1, S2, S3.
   pose proof (round_spec (sd_eps0 w d) (sd_sumdf1 w d) Hu0) as (E1 & E2 & E3).
   fold (sd_eps1 w d) in E1, E2, E3.
   assert (Hdiv : sd_spd1 w d = sd_sdf1 w d * (sd_spd1 w d / sd_sdf1 w d)) by (apply N.div_exact; assumption).
   assert (Hepd : 1 <= sd_spd1 w d / sd_sdf1 w d).
-  { destruct (N.eq_dec (sd_spd1 w d / sd_sdf1 w d) 0) as [Z|Z]; [rewrite Z in Hdiv; lia|lia]. }
-  destruct (fit_loop_total (sd_eps1 w d) (sd_spd1 w d / sd_sdf1 w d) Hepd) as (k & Hk & HL).
-  exists k. split; [exact HL|]. split; [exact S1|].
-  assert (Hle : sd_sdf1 w d * k <= sd_spd1 w d).
-  { eapply N.le_trans; [|apply N.eq_le_incl; symmetry; exact Hdiv].
+  { destruct (N.eq_dec (sd_spd1 w d / sd_sdf1 w d) 0) as [Z|Z]; [rewrite Z in Hdiv; clear - Hdiv S2 M2; lia|clear - Z; destruct (sd_spd1 w d / sd_sdf1 w d); [contradiction|lia]]. }
+  pose proof (fit_fast_largest (sd_eps1 w d) (sd_spd1 w d / sd_sdf1 w d) He Hepd) as HL.
+  fold (sd_k w d) in HL.
+  assert (Hle : sd_spd2 w d <= sd_spd1 w d).
+  { unfold sd_spd2. eapply N.le_trans; [|apply N.eq_le_incl; symmetry; exact Hdiv].
     apply N.mul_le_mono_l. destruct HL as (_ & B & _). exact B. }
-  split; [exact Hle|]. split; [lia|].
-  unfold sd_align.
+  repeat split; try assumption.
+  - clear - R2 M1; lia.
+  - clear - E2 M3; lia.
+  - clear - S2 M2; lia.
+  - destruct HL as (A & _); exact A.
+  - destruct HL as (_ & B & _); exact B.
+  - destruct HL as (_ & _ & C & _); exact C.
+  - destruct HL as (_ & _ & _ & D); exact D.
+Qed.
+
+Theorem align_exact : forall w d, In w sd_widths ->
+  (sd_accepts w d /\ sd_align w d = SdOk (sd_normal w d)) \/
+  (~ sd_accepts w d /\ sd_align w d = SdErr JLS_ERROR_PARAMETER_INVALID).
+Proof.
+  intros w d Hw.
+  destruct (width_facts w Hw) as (Hw0 & Hm0 & _ & _).
+  destruct (mins w d) as (M1 & M2 & M3 & M4).
+  assert (Hu0 : sd_sumdf1 w d <> 0) by (clear - M4; lia).
+  pose proof (round_spec (sd_sdf0 w d) (sd_multiple w) Hm0) as (_ & R2 & _).
+  fold (sd_sdf1 w d) in R2.
+  assert (Hs0 : sd_sdf1 w d <> 0) by (clear - R2 M1; lia).
+  unfold sd_align, sd_accepts, sd_normal.
   destruct (w =? 0) eqn:Ew; [apply N.eqb_eq in Ew; contradiction|].
   fold (sd_sdf0 w d) (sd_spd0 w d) (sd_eps0 w d) (sd_sumdf1 w d).
-  rewrite (round_up_exact (sd_sdf0 w d) (sd_multiple w)) by (try assumption; lia).
+  destruct (N.le_gt_cases (sd_sdf1 w d) U32MAX) as [A1|A1].
+  2:{ right. split; [intros (X & _); clear - X A1; lia|].
+      rewrite (round_up_err (sd_sdf0 w d) (sd_multiple w)) by assumption. reflexivity. }
+  rewrite (round_up_ok (sd_sdf0 w d) (sd_multiple w)) by assumption.
   fold (sd_sdf1 w d). cbn [sd_bind].
-  rewrite (round_up_exact (sd_eps0 w d) (sd_sumdf1 w d)) by (try assumption; lia).
+  destruct (N.le_gt_cases (sd_eps1 w d) U32MAX) as [A2|A2].
+  2:{ right. split; [intros (_ & X & _); clear - X A2; lia|].
+      rewrite (round_up_err (sd_eps0 w d) (sd_sumdf1 w d)) by assumption. reflexivity. }
+  rewrite (round_up_ok (sd_eps0 w d) (sd_sumdf1 w d)) by assumption.
   fold (sd_eps1 w d). cbn [sd_bind].
-  rewrite (round_up_exact (sd_spd0 w d) (sd_sdf1 w d)) by (try assumption; lia).
+  destruct (N.le_gt_cases (sd_spd1 w d) U32MAX) as [A3|A3].
+  2:{ right. split; [intros (_ & _ & X & _); clear - X A3; lia|].
+      rewrite (round_up_err (sd_spd0 w d) (sd_sdf1 w d)) by assumption. reflexivity. }
+  rewrite (round_up_ok (sd_spd0 w d) (sd_sdf1 w d)) by assumption.
   fold (sd_spd1 w d). cbn [sd_bind].
   destruct (sd_sdf1 w d =? 0) eqn:Es; [apply N.eqb_eq in Es; contradiction|].
-  rewrite Hk. cbn [sd_bind].
-  rewrite u32_small by lia. reflexivity.
+  assert (He : sd_eps1 w d < U32) by (clear - A2; unfold U32MAX, U32 in *; lia).
+  destruct (normal_facts w d Hw He) as (_ & _ & _ & _ & _ & _ & _ & Hepd & _ & Hle).
+  rewrite fit_fast_eq by assumption. fold (sd_k w d). cbn [sd_bind].
+  fold (sd_spd2 w d).
+  rewrite u32_small by (clear - Hle A3; unfold U32MAX, U32 in *; lia).
+  unfold sd_block_too_big, sd_summary_too_big.
+  destruct (U32MAX / 2 <? sd_spd2 w d * w / 8) eqn:B1.
+  { right. apply N.ltb_lt in B1. split; [intros (_ & _ & _ & X & _); clear - X B1; lia|reflexivity]. }
+  destruct (U32MAX / 2 <? sd_eps1 w d * JLS_SUMMARY_FSR_COUNT * SD_SIZEOF_DOUBLE) eqn:B2.
+  { right. apply N.ltb_lt in B2. split; [intros (_ & _ & _ & _ & X); clear - X B2; lia|reflexivity]. }
+  apply N.ltb_ge in B1. apply N.ltb_ge in B2.
+  left. split; [repeat split; assumption|reflexivity].
+Qed.
+
+(* what is stored is consistent *)
+Lemma normal_consistent : forall w d, In w sd_widths -> sd_eps1 w d < U32 -> Consistent w (sd_normal w d).
+Proof.
+  intros w d Hw He.
+  destruct (normal_facts w d Hw He) as (F1 & F2 & F3 & F4 & F5 & F6 & F7 & F8 & (K1 & K2 & K3 & K4) & F10).
+  destruct (width_facts w Hw) as (Hw0 & Hm0 & WF & WB).
+  destruct (defaults_nonzero w d Hw) as (_ & _ & _ & _ & N5 & N6).
+  assert (Hs0 : sd_sdf1 w d <> 0) by (clear - F2; lia).
+  assert (Hk0 : sd_k w d <> 0) by (clear - K1; lia).
+  assert (Hq : sd_spd2 w d / sd_sdf1 w d = sd_k w d) by (unfold sd_spd2; rewrite N.mul_comm; apply N.div_mul; exact Hs0).
+  assert (Hr : sd_spd2 w d mod sd_sdf1 w d = 0) by (unfold sd_spd2; rewrite N.mul_comm; apply N.mod_mul; exact Hs0).
+  assert (Hge : sd_sdf1 w d * 1 <= sd_spd2 w d) by (unfold sd_spd2; apply N.mul_le_mono_l; exact K1).
+  assert (W2 : (sd_sdf1 w d * w) mod (SAMPLE_SIZE_BYTES_MAX * 8) = 0) by (apply WF; exact F1).
+  unfold Consistent, sd_normal. cbn [spd sdf eps sumdf sd_anno sd_utc]. rewrite Hq. unfold_consts.
+  split; [apply WB; exact W2|]. split; [exact W2|].
+  split; [split; [exact Hs0|exact Hr]|].
+  split; [split; [exact Hk0|exact K3]|].
+  split; [split; [clear - F5; lia|exact F3]|].
+  split; [clear - Hge F2; lia|]. split; [exact F2|]. split; [exact F4|]. split; [exact F5|].
+  split; [exact N5|exact N6].
 Qed.
 
 (* ------------------------------------------------------------------ *)
-(* align_ok_partial                                                    *)
+(* align_total: the full property                                      *)
 
-Lemma align_ok_partial : forall w d, In w sd_widths -> sd_guard w d ->
-  exists d', sd_align w d = SdOk d' /\ Consistent w d' /\
-             (w <> 24 -> Entry256 w d') /\
-             sdf d' mod sd_multiple w = 0 /\ spd d' < U32 /\ sdf d' < U32 /\ eps d' < U32.
+Definition sizes_ok (w : N) (d : sd_sigdef) : Prop :=
+  spd d * w / 8 <= U32MAX / 2 /\ eps d * JLS_SUMMARY_FSR_COUNT * SD_SIZEOF_DOUBLE <= U32MAX / 2.
+
+Theorem align_total : forall w d, In w sd_widths -> in_range d ->
+  (exists d', sd_align w d = SdOk d' /\ Consistent w d' /\ in_range d' /\ sizes_ok w d') \/
+  sd_align w d = SdErr JLS_ERROR_PARAMETER_INVALID.
 Proof.
-  intros w d Hw (G1 & G2 & G3 & G4a & G4b).
-  destruct (align_guarded_form w d Hw G1 G2 G3) as (k & (K1 & K2 & K3 & K4) & S1 & Hle & Hlt & Hal).
-  destruct (width_facts w Hw) as (Hw0 & Hm0 & Hm256 & WF & _).
-  destruct (mins w d) as (M1 & M2 & M3 & M4).
-  unfold guard_sdf, guard_spd, guard_eps in *.
-  pose proof (round_spec (sd_sdf0 w d) (sd_multiple w) Hm0) as (R1 & R2 & R3).
-  fold (sd_sdf1 w d) in R1, R2, R3.
-  assert (Hs0 : sd_sdf1 w d <> 0) by lia.
-  assert (Hu0 : sd_sumdf1 w d <> 0) by lia.
-  pose proof (round_spec (sd_eps0 w d) (sd_sumdf1 w d) Hu0) as (E1 & E2 & E3).
-  fold (sd_eps1 w d) in E1, E2, E3.
-  destruct (WF (sd_sdf1 w d) R1) as (W1 & W2 & W3).
-  assert (Hk0 : k <> 0) by lia.
-  assert (Hq : sd_sdf1 w d * k / sd_sdf1 w d = k) by (rewrite N.mul_comm; apply N.div_mul; exact Hs0).
-  assert (Hr : (sd_sdf1 w d * k) mod sd_sdf1 w d = 0) by (rewrite N.mul_comm; apply N.mod_mul; exact Hs0).
-  assert (Hge : sd_sdf1 w d * 1 <= sd_sdf1 w d * k) by (apply N.mul_le_mono_l; exact K1).
-  eexists. split; [exact Hal|].
-  cbn [spd sdf eps sumdf anno utc].
+  intros w d Hw Hr.
+  destruct (align_exact w d Hw) as [((A1 & A2 & A3 & A4 & A5) & Hal)|(_ & Hal)]; [left|right; exact Hal].
+  assert (He : sd_eps1 w d < U32) by (clear - A2; unfold U32MAX, U32 in *; lia).
+  exists (sd_normal w d). split; [exact Hal|]. split; [apply normal_consistent; assumption|].
+  destruct (normal_facts w d Hw He) as (_ & _ & F3 & F4 & F5 & _ & _ & _ & _ & F10).
+  pose proof (defaults_in_range w d Hw Hr) as (_ & _ & _ & _ & D5 & D6).
+  assert (Hsum : sd_sumdf1 w d <= sd_eps1 w d) by (apply mod0_le; [clear - F4; lia|clear - F5; lia|exact F3]).
   split.
-  { unfold Consistent. cbn [spd sdf eps sumdf anno utc]. rewrite Hq. unfold_consts.
-    split; [exact W1|]. split; [exact W2|].
-    split; [split; [exact Hs0|exact Hr]|].
-    split; [split; [exact Hk0|exact K3]|].
-    split; [split; [exact Hu0|exact E1]|].
-    split; [clear - Hge R2 M1; lia|]. split; [clear - R2 M1; lia|].
-    split; [clear - E2 M3; lia|]. split; [clear - M4; lia|].
-    split; [clear - G4a; lia|clear - G4b; lia]. }
-  split; [exact W3|].
-  split; [exact R1|].
-  split; [clear - Hle Hlt; lia|]. split; [clear - R3 G1; lia|clear - E3 G3; lia].
+  - unfold in_range, sd_normal. cbn [spd sdf eps sumdf sd_anno sd_utc].
+    repeat split; try assumption; unfold U32MAX, U32 in *.
+    + clear - F10 A3; lia.
+    + clear - A1; lia.
+    + clear - Hsum A2; lia.
+  - unfold sizes_ok, sd_normal. cbn [spd eps]. split; assumption.
 Qed.
 
 (* ------------------------------------------------------------------ *)
-(* tightness: outside the guard the C faults or stores inconsistent    *)
-(* parameters                                                          *)
+(* idempotence, unguarded                                              *)
 
-Lemma align_guard_necessary : forall w d d', In w sd_widths -> in_range d ->
-  sd_align w d = SdOk d' -> Consistent w d' -> sd_guard w d.
+Lemma fit_loop_hit : forall fuel e epd, epd <> 0 -> e mod epd = 0 -> sd_fit_loop fuel e epd = SdOk epd.
 Proof.
-  intros w d d' Hw Hr Hal Hc.
-  destruct (width_facts w Hw) as (Hw0 & Hm0 & Hm256 & _ & _).
-  destruct (mins w d) as (M1 & M2 & M3 & M4).
-  pose proof (defaults_in_range w d Hw Hr) as (D1 & D2 & D3 & D4 & D5 & D6).
-  assert (B1 : sd_sdf0 w d < U32) by (unfold sd_sdf0, U32 in *; unfold_consts; lia).
-  assert (B2 : sd_spd0 w d < U32) by (unfold sd_spd0, U32 in *; unfold_consts; lia).
-  assert (B3 : sd_eps0 w d < U32) by (unfold sd_eps0, U32 in *; unfold_consts; lia).
-  assert (B4 : sd_sumdf1 w d < U32) by (unfold sd_sumdf1, U32 in *; unfold_consts; lia).
-  assert (Hu0 : sd_sumdf1 w d <> 0) by lia.
-  assert (Ew : (w =? 0) = false) by (apply N.eqb_neq; exact Hw0).
-  (* 1: the rounding of sample_decimate_factor *)
-  destruct (N.lt_ge_cases (sd_sdf0 w d + sd_multiple w - 1) U32) as [G1|G1].
-  2:{ exfalso. unfold sd_align in Hal. rewrite Ew in Hal.
-      fold (sd_sdf0 w d) (sd_spd0 w d) (sd_eps0 w d) (sd_sumdf1 w d) in Hal.
-      rewrite (round_up_wraps (sd_sdf0 w d) (sd_multiple w)) in Hal by (unfold U32 in *; try assumption; lia).
-      cbn [sd_bind] in Hal.
-      destruct (sd_round_up (sd_eps0 w d) (sd_sumdf1 w d)); cbn in Hal; discriminate. }
-  pose proof (round_spec (sd_sdf0 w d) (sd_multiple w) Hm0) as (R1 & R2 & R3).
-  fold (sd_sdf1 w d) in R1, R2, R3.
-  assert (Hs0 : sd_sdf1 w d <> 0) by lia.
-  assert (Es : (sd_sdf1 w d =? 0) = false) by (apply N.eqb_neq; exact Hs0).
-  (* 2: the rounding of samples_per_data *)
-  destruct (N.lt_ge_cases (sd_spd0 w d + sd_sdf1 w d - 1) U32) as [G2|G2].
-  2:{ exfalso. unfold sd_align in Hal. rewrite Ew in Hal.
-      fold (sd_sdf0 w d) (sd_spd0 w d) (sd_eps0 w d) (sd_sumdf1 w d) in Hal.
-      rewrite (round_up_exact (sd_sdf0 w d) (sd_multiple w)) in Hal by (try assumption; lia).
-      fold (sd_sdf1 w d) in Hal. cbn [sd_bind] in Hal.
-      destruct (sd_round_up (sd_eps0 w d) (sd_sumdf1 w d)); [|cbn in Hal; discriminate].
-      cbn [sd_bind] in Hal.
-      rewrite (round_up_wraps (sd_spd0 w d) (sd_sdf1 w d)) in Hal by (try assumption; lia).
-      cbn [sd_bind] in Hal. rewrite Es in Hal.
-      rewrite N.div_0_l in Hal by exact Hs0. cbn in Hal. discriminate. }
-  (* 3: the rounding of entries_per_summary *)
-  destruct (N.lt_ge_cases (sd_eps0 w d + sd_sumdf1 w d - 1) U32) as [G3|G3].
-  2:{ exfalso. unfold sd_align in Hal. rewrite Ew in Hal.
-      fold (sd_sdf0 w d) (sd_spd0 w d) (sd_eps0 w d) (sd_sumdf1 w d) in Hal.
-      rewrite (round_up_exact (sd_sdf0 w d) (sd_multiple w)) in Hal by (try assumption; lia).
-      fold (sd_sdf1 w d) in Hal. cbn [sd_bind] in Hal.
-      rewrite (round_up_wraps (sd_eps0 w d) (sd_sumdf1 w d)) in Hal by (try assumption; lia).
-      cbn [sd_bind] in Hal.
-      destruct (sd_round_up (sd_spd0 w d) (sd_sdf1 w d)); [|cbn in Hal; discriminate].
-      cbn [sd_bind] in Hal. rewrite Es in Hal.
-      destruct (sd_fit_loop _ 0 _); [|cbn in Hal; discriminate].
-      cbn [sd_bind] in Hal. injection Hal as <-.
-      destruct Hc as (_ & _ & _ & _ & _ & _ & _ & C8 & _). cbn [eps] in C8.
-      unfold_consts. lia. }
-  (* 4: annotation / utc factors *)
-  destruct (align_guarded_form w d Hw G1 G2 G3) as (k & _ & _ & _ & _ & Hal').
-  rewrite Hal' in Hal. injection Hal as <-.
-  destruct Hc as (_ & _ & _ & _ & _ & _ & _ & _ & _ & C10 & C11). cbn [anno utc] in C10, C11.
-  repeat split; try assumption; lia.
+  intros fuel e epd H0 Hm.
+  assert (Ed : sd_is_div e epd = true) by (apply is_div_iff; assumption).
+  assert (E0 : (epd =? 0) = false) by (apply N.eqb_neq; exact H0).
+  destruct fuel; cbn [sd_fit_loop]; rewrite E0, Ed; reflexivity.
 Qed.
 
-Theorem align_ok_iff : forall w d, In w sd_widths -> in_range d ->
-  ((exists d', sd_align w d = SdOk d' /\ Consistent w d') <-> sd_guard w d).
-Proof.
-  intros w d Hw Hr. split.
-  - intros (d' & Hal & Hc). eapply align_guard_necessary; eassumption.
-  - intros G. destruct (align_ok_partial w d Hw G) as (d' & Hal & Hc & _). eauto.
-Qed.
-
-(* ------------------------------------------------------------------ *)
-(* idempotence                                                         *)
-
-Lemma align_idem : forall w d, In w sd_widths -> Consistent w d ->
-  sdf d mod sd_multiple w = 0 ->
-  spd d + sdf d - 1 < U32 -> eps d + sumdf d - 1 < U32 ->
+(* every consistent definition that fits 32 bits and the buffer-size limits is a fixed point *)
+Lemma align_idem_consistent : forall w d, In w sd_widths -> Consistent w d ->
+  spd d < U32 -> eps d < U32 -> sizes_ok w d ->
   sd_align w d = SdOk d.
 Proof.
-  intros w d Hw Hc Hm G2 G3.
-  destruct Hc as (_ & _ & (C3a & C3b) & (C4a & C4b) & (C5a & C5b) & C6 & C7 & C8 & C9 & C10 & C11).
-  destruct (width_facts w Hw) as (Hw0 & Hm0 & Hm256 & _ & _).
+  intros w d Hw Hc Hspd Heps (Z1 & Z2).
+  destruct Hc as (_ & C2 & (C3a & C3b) & (C4a & C4b) & (C5a & C5b) & C6 & C7 & C8 & C9 & C10 & C11).
+  destruct (width_facts w Hw) as (Hw0 & Hm0 & WF & _).
   unfold_consts.
   assert (N1 : spd d <> 0) by (clear - C6; lia).
   assert (N3 : eps d <> 0) by (clear - C8; lia).
-  assert (N5 : anno d <> 0) by (clear - C10; lia).
-  assert (N6 : utc d <> 0) by (clear - C11; lia).
-  assert (Hd : sd_defaults w d = d) by (apply defaults_fixed; assumption).
-  assert (E0 : sd_sdf0 w d = sdf d) by (unfold sd_sdf0; rewrite Hd; unfold_consts; clear - C7; lia).
-  assert (E1 : sd_sdf1 w d = sdf d) by (unfold sd_sdf1; rewrite E0; apply round_multiple; assumption).
-  assert (E2 : sd_spd0 w d = spd d) by (unfold sd_spd0; rewrite Hd; unfold_consts; clear - C6; lia).
-  assert (E3 : sd_eps0 w d = eps d) by (unfold sd_eps0; rewrite Hd; unfold_consts; clear - C8; lia).
-  assert (E4 : sd_sumdf1 w d = sumdf d) by (unfold sd_sumdf1; rewrite Hd; unfold_consts; clear - C9; lia).
-  assert (E5 : sd_eps1 w d = eps d) by (unfold sd_eps1; rewrite E3, E4; apply round_multiple; assumption).
-  assert (E6 : sd_spd1 w d = spd d) by (unfold sd_spd1; rewrite E2, E1; apply round_multiple; assumption).
-  assert (L1 : sd_multiple w <= sdf d) by (apply mod0_le; assumption).
+  assert (Hd : sd_defaults w d = d) by (apply defaults_fixed; unfold_consts; assumption).
+  assert (Hm : sdf d mod sd_multiple w = 0) by (apply WF; exact C2).
   assert (L2 : sdf d <= spd d) by (apply mod0_le; assumption).
-  assert (G1 : guard_sdf w d) by (unfold guard_sdf; rewrite E0; clear - L1 L2 G2; lia).
-  assert (G2' : guard_spd w d) by (unfold guard_spd; rewrite E2, E1; exact G2).
-  assert (G3' : guard_eps w d) by (unfold guard_eps; rewrite E3, E4; exact G3).
-  destruct (align_guarded_form w d Hw G1 G2' G3') as (k & HL & _ & _ & _ & Hal).
-  rewrite Hal, E1, E4, E5, Hd. rewrite E5, E6, E1 in HL.
-  assert (HL' : LargestDiv (eps d) (spd d / sdf d) (spd d / sdf d)).
-  { generalize dependent (spd d / sdf d). intros q C4a C4b _. repeat split; try assumption; clear - C4a; lia. }
-  rewrite (LargestDiv_unique _ _ _ _ HL HL').
+  assert (L3 : sumdf d <= eps d) by (apply mod0_le; assumption).
+  unfold sd_align. rewrite Hd.
+  destruct (w =? 0) eqn:Ew; [apply N.eqb_eq in Ew; contradiction|].
+  replace (N.max (sdf d) SAMPLE_DECIMATE_FACTOR_MIN) with (sdf d) by (unfold_consts; clear - C7; lia).
+  replace (N.max (spd d) SAMPLES_PER_DATA_MIN) with (spd d) by (unfold_consts; clear - C6; lia).
+  replace (N.max (eps d) ENTRIES_PER_SUMMARY_MIN) with (eps d) by (unfold_consts; clear - C8; lia).
+  replace (N.max (sumdf d) SUMMARY_DECIMATE_FACTOR_MIN) with (sumdf d) by (unfold_consts; clear - C9; lia).
+  rewrite (round_up_ok (sdf d) (sd_multiple w)) by
+    (try assumption; rewrite round_multiple by assumption; clear - L2 Hspd; unfold U32MAX, U32 in *; lia).
+  rewrite round_multiple by assumption. cbn [sd_bind].
+  rewrite (round_up_ok (eps d) (sumdf d)) by
+    (try assumption; rewrite round_multiple by assumption; clear - Heps; unfold U32MAX, U32 in *; lia).
+  rewrite round_multiple by assumption. cbn [sd_bind].
+  rewrite (round_up_ok (spd d) (sdf d)) by
+    (try assumption; rewrite round_multiple by assumption; clear - Hspd; unfold U32MAX, U32 in *; lia).
+  rewrite round_multiple by assumption. cbn [sd_bind].
+  destruct (sdf d =? 0) eqn:Es; [apply N.eqb_eq in Es; contradiction|].
+  rewrite fit_loop_hit by assumption. cbn [sd_bind].
   assert (Hx : sdf d * (spd d / sdf d) = spd d) by (symmetry; apply N.div_exact; assumption).
-  rewrite Hx. destruct d; reflexivity.
+  rewrite Hx. rewrite u32_small by exact Hspd.
+  unfold sd_block_too_big, sd_summary_too_big.
+  destruct (U32MAX / 2 <? spd d * w / 8) eqn:B1; [apply N.ltb_lt in B1; clear - B1 Z1; lia|].
+  destruct (U32MAX / 2 <? eps d * JLS_SUMMARY_FSR_COUNT * SD_SIZEOF_DOUBLE) eqn:B2; [apply N.ltb_lt in B2; clear - B2 Z2; lia|].
+  destruct d; reflexivity.
 Qed.
 
-(* normalising twice: the second pass is the identity as soon as its own two roundings
-   do not wrap (they can: see align_twice_refuted) *)
-Lemma align_twice : forall w d d', In w sd_widths -> sd_guard w d -> sd_align w d = SdOk d' ->
-  spd d' + sdf d' - 1 < U32 -> eps d' + sumdf d' - 1 < U32 ->
-  sd_align w d' = SdOk d'.
+(* align (align d) = align d: whatever the code stores, it stores again unchanged *)
+Theorem align_idem : forall w d d', In w sd_widths -> sd_align w d = SdOk d' -> sd_align w d' = SdOk d'.
 Proof.
-  intros w d d' Hw G Hal G2 G3.
-  destruct (align_ok_partial w d Hw G) as (d2 & Hal2 & Hc & _ & Hm & _).
-  rewrite Hal in Hal2. injection Hal2 as <-.
-  apply align_idem; assumption.
+  intros w d d' Hw Hal.
+  destruct (align_exact w d Hw) as [((A1 & A2 & A3 & A4 & A5) & Hal2)|(_ & Hal2)];
+    rewrite Hal2 in Hal; [|discriminate].
+  injection Hal as <-.
+  assert (He : sd_eps1 w d < U32) by (clear - A2; unfold U32MAX, U32 in *; lia).
+  destruct (normal_facts w d Hw He) as (_ & _ & _ & _ & _ & _ & _ & _ & _ & F10).
+  apply align_idem_consistent; try assumption.
+  - apply normal_consistent; assumption.
+  - unfold sd_normal; cbn [spd]. clear - F10 A3; unfold U32MAX, U32 in *; lia.
+  - unfold sizes_ok, sd_normal. cbn [spd eps]. split; assumption.
 Qed.
+
 
 (* ------------------------------------------------------------------ *)
 (* defaults                                                            *)
 
-Lemma align_defaults : forall w d, In w sd_widths -> w <> 24 ->
+Lemma align_defaults : forall w d, In w sd_widths ->
   exists t, sd_table w = Some t /\
-    (spd t <> 0 /\ sdf t <> 0 /\ eps t <> 0 /\ sumdf t <> 0 /\ anno t <> 0 /\ utc t <> 0) /\
+    (spd t <> 0 /\ sdf t <> 0 /\ eps t <> 0 /\ sumdf t <> 0 /\ sd_anno t <> 0 /\ sd_utc t <> 0) /\
     let d1 := mkSigDef (if spd d =? 0 then spd t else spd d) (if sdf d =? 0 then sdf t else sdf d)
                        (if eps d =? 0 then eps t else eps d) (if sumdf d =? 0 then sumdf t else sumdf d)
-                       (if anno d =? 0 then anno t else anno d) (if utc d =? 0 then utc t else utc d) in
+                       (N.max (if sd_anno d =? 0 then sd_anno t else sd_anno d) SUMMARY_DECIMATE_FACTOR_MIN)
+                       (N.max (if sd_utc d =? 0 then sd_utc t else sd_utc d) SUMMARY_DECIMATE_FACTOR_MIN) in
     sd_defaults w d = d1 /\ sd_defaults w d1 = d1 /\ sd_align w d = sd_align w d1.
 Proof.
-  intros w d Hw H24.
-  destruct (table_some_or_24 w Hw) as [->|(t & Ht & N1 & N2 & N3 & N4 & N5 & N6 & _)]; [contradiction|].
+  intros w d Hw.
+  destruct (table_some w Hw) as (t & Ht & N1 & N2 & N3 & N4 & N5 & N6 & _).
   exists t. split; [exact Ht|]. split; [repeat split; assumption|].
   assert (E : sd_defaults w d =
               mkSigDef (if spd d =? 0 then spd t else spd d) (if sdf d =? 0 then sdf t else sdf d)
                        (if eps d =? 0 then eps t else eps d) (if sumdf d =? 0 then sumdf t else sumdf d)
-                       (if anno d =? 0 then anno t else anno d) (if utc d =? 0 then utc t else utc d)).
-  { unfold sd_defaults. rewrite Ht. reflexivity. }
+                       (N.max (if sd_anno d =? 0 then sd_anno t else sd_anno d) SUMMARY_DECIMATE_FACTOR_MIN)
+                       (N.max (if sd_utc d =? 0 then sd_utc t else sd_utc d) SUMMARY_DECIMATE_FACTOR_MIN)).
+  { unfold sd_defaults, sd_defaults_with. rewrite Ht. reflexivity. }
   cbv zeta. rewrite <- E.
   split; [reflexivity|]. split; [apply defaults_idem; exact Hw|].
   apply align_depends_on_defaults. symmetry. apply defaults_idem. exact Hw.
 Qed.
-
-Lemma defaults_24_nothing : forall d, sd_defaults 24 d = d.
-Proof. reflexivity. Qed.
 
 (* ------------------------------------------------------------------ *)
 (* the executable predicates reflect the propositions                  *)
@@ -637,27 +662,11 @@ Proof. reflexivity. Qed.
 Lemma consistentb_iff : forall w d, consistentb w d = true <-> Consistent w d.
 Proof.
   intros w d. unfold consistentb, consistent_clauses, Consistent. cbn [forallb].
-  rewrite !andb_true_iff, !orb_true_iff, !negb_true_iff, !N.eqb_eq, !N.eqb_neq, !N.leb_le.
-  destruct (N.eq_dec ((SAMPLE_SIZE_BYTES_MAX * 8) mod w) 0) as [Z|Z]; tauto.
+  rewrite !andb_true_iff, !negb_true_iff, !N.eqb_eq, !N.eqb_neq, !N.leb_le. tauto.
 Qed.
 
 Lemma entry256b_iff : forall w d, entry256b w d = true <-> Entry256 w d.
 Proof. intros w d. unfold entry256b, Entry256. apply N.eqb_eq. Qed.
-
-Lemma guardb_iff : forall w d, sd_guardb w d = true <-> sd_guard w d.
-Proof.
-  intros w d. unfold sd_guardb, guard_bits, sd_guard, guard_sdf, guard_spd, guard_eps, guard_ts. cbn [forallb].
-  rewrite !andb_true_iff, !negb_true_iff, !N.eqb_neq, !N.ltb_lt. tauto.
-Qed.
-
-(* for 24-bit samples the stored entry is a multiple of 256 bits exactly when the
-   rounded factor happens to be a multiple of 32 *)
-Lemma entry256_24 : forall d, Entry256 24 d <-> sdf d mod 32 = 0.
-Proof.
-  intros d. unfold Entry256. change (SAMPLE_SIZE_BYTES_MAX * 8) with 256.
-  generalize (sdf d). intro s. lia.
-Qed.
-
 (* ------------------------------------------------------------------ *)
 (* validate                                                            *)
 
@@ -687,141 +696,166 @@ Proof.
   contradiction.
 Qed.
 
-(* ------------------------------------------------------------------ *)
-(* concrete instances: hypotheses are satisfiable, defaults are fine,  *)
-(* and the witnesses that refute the unguarded statement               *)
 
-Definition sd_zero : sigdef := mkSigDef 0 0 0 0 0 0.
+(* ------------------------------------------------------------------ *)
+(* the Err branch of align_total is not the whole story: every definition with *)
+(* moderate parameters is accepted                                      *)
+
+Lemma table_small : forall w, In w sd_widths ->
+  exists t, sd_table w = Some t /\ spd t <= 65536 /\ sdf t <= 65536 /\ eps t <= 65536 /\ sumdf t <= 65536.
+Proof.
+  intros w H. cbn [In sd_widths] in H.
+  destruct H as [H|[H|[H|[H|[H|[H|[H|H]]]]]]]; [subst w ..|contradiction];
+  eexists; (split; [reflexivity|]); vm_compute; repeat split; discriminate.
+Qed.
+
+Lemma align_accepts_moderate : forall w d, In w sd_widths ->
+  spd d <= 16777216 -> sdf d <= 16777216 -> eps d <= 16777216 -> sumdf d <= 16777216 ->
+  exists d', sd_align w d = SdOk d'.
+Proof.
+  intros w d Hw B1 B2 B3 B4.
+  destruct (align_exact w d Hw) as [(_ & Hal)|(Hn & _)]; [eauto|exfalso; apply Hn; clear Hn].
+  destruct (table_small w Hw) as (t & Ht & T1 & T2 & T3 & T4).
+  destruct (width_facts w Hw) as (Hw0 & Hm0 & _ & _).
+  destruct (mins w d) as (M1 & M2 & M3 & M4).
+  assert (D1 : spd (sd_defaults w d) <= 16777216 /\ sdf (sd_defaults w d) <= 16777216 /\
+               eps (sd_defaults w d) <= 16777216 /\ sumdf (sd_defaults w d) <= 16777216).
+  { unfold sd_defaults, sd_defaults_with. rewrite Ht. cbn [spd sdf eps sumdf].
+    repeat split;
+    match goal with |- sd_take ?x ?y <= _ => destruct (take_cases x y) as [[_ ->]|[_ ->]]; lia end. }
+  destruct D1 as (D1 & D2 & D3 & D4).
+  assert (S0 : sd_sdf0 w d <= 16777216) by (unfold sd_sdf0; unfold_consts; clear - D2; lia).
+  assert (P0 : sd_spd0 w d <= 16777216) by (unfold sd_spd0; unfold_consts; clear - D1; lia).
+  assert (E0 : sd_eps0 w d <= 16777216) by (unfold sd_eps0; unfold_consts; clear - D3; lia).
+  assert (U0 : sd_sumdf1 w d <= 16777216) by (unfold sd_sumdf1; unfold_consts; clear - D4; lia).
+  pose proof (round_spec (sd_sdf0 w d) (sd_multiple w) Hm0) as (_ & R2 & R3).
+  fold (sd_sdf1 w d) in R2, R3.
+  assert (Hs0 : sd_sdf1 w d <> 0) by (clear - R2 M1; lia).
+  assert (Hu0 : sd_sumdf1 w d <> 0) by (clear - M4; lia).
+  pose proof (round_spec (sd_spd0 w d) (sd_sdf1 w d) Hs0) as (_ & _ & S3).
+  fold (sd_spd1 w d) in S3.
+  pose proof (round_spec (sd_eps0 w d) (sd_sumdf1 w d) Hu0) as (_ & _ & E3).
+  fold (sd_eps1 w d) in E3.
+  assert (Mw : sd_multiple w <= 256 /\ w <= 64).
+  { clear - Hw. cbn [In sd_widths] in Hw.
+    destruct Hw as [H|[H|[H|[H|[H|[H|[H|H]]]]]]]; [subst w ..|contradiction]; vm_compute; split; discriminate. }
+  destruct Mw as (Mm & Mw).
+  assert (A1 : sd_sdf1 w d <= 16777471) by (clear - R3 S0 Mm; lia).
+  assert (A2 : sd_eps1 w d <= 33554431) by (clear - E3 E0 U0; lia).
+  assert (A3 : sd_spd1 w d <= 33554686) by (clear - S3 P0 A1; lia).
+  assert (He : sd_eps1 w d < U32) by (clear - A2; unfold U32; lia).
+  destruct (normal_facts w d Hw He) as (_ & _ & _ & _ & _ & _ & _ & _ & _ & F10).
+  assert (A4 : sd_spd2 w d * w <= 33554686 * 64).
+  { apply N.mul_le_mono; [clear - F10 A3; lia|exact Mw]. }
+  unfold sd_accepts, U32MAX, U32, SD_SIZEOF_DOUBLE.
+  change JLS_SUMMARY_FSR_COUNT with 4.
+  split; [clear - A1; lia|]. split; [clear - A2; lia|]. split; [clear - A3; lia|].
+  split; [|clear - A2; lia].
+  clear - A4. generalize dependent (sd_spd2 w d * w). intros x A4. lia.
+Qed.
+
+(* ------------------------------------------------------------------ *)
+(* concrete instances                                                  *)
+
+Definition sd_zero : sd_sigdef := mkSigDef 0 0 0 0 0 0.
 
 Lemma in_range_b : forall d,
-  (spd d <? U32) && (sdf d <? U32) && (eps d <? U32) && (sumdf d <? U32) && (anno d <? U32) && (utc d <? U32) = true ->
+  (spd d <? U32) && (sdf d <? U32) && (eps d <? U32) && (sumdf d <? U32) && (sd_anno d <? U32) && (sd_utc d <? U32) = true ->
   in_range d.
 Proof.
   intros d H. rewrite !andb_true_iff, !N.ltb_lt in H. unfold in_range. tauto.
 Qed.
 
-(* every all-defaults definition (all six fields zero) meets the guard; for 24-bit
-   samples it does not (no defaults: annotation/utc factors stay zero) *)
-Lemma defaults_meet_guard : forall w, In w sd_widths -> w <> 24 -> sd_guard w sd_zero.
-Proof.
-  intros w Hw H24. cbn [In sd_widths] in Hw.
-  destruct Hw as [H|[H|[H|[H|[H|[H|[H|H]]]]]]]; [subst w ..|contradiction];
-  try contradiction; apply guardb_iff; vm_compute; reflexivity.
-Qed.
-
-Lemma defaults_24_fail_guard : ~ sd_guard 24 sd_zero.
-Proof. intro H. apply guardb_iff in H. vm_compute in H. discriminate. Qed.
-
+(* all-defaults definitions (all six fields zero) normalise to the tables, 24-bit included *)
 Lemma defaults_normal_forms :
   sd_align 1 sd_zero = SdOk (mkSigDef DEF1_samples_per_data DEF1_sample_decimate_factor DEF1_entries_per_summary DEF1_summary_decimate_factor DEF32_annotation_decimate_factor DEF32_utc_decimate_factor) /\
   sd_align 4 sd_zero = SdOk (mkSigDef DEF4_samples_per_data DEF4_sample_decimate_factor DEF4_entries_per_summary DEF4_summary_decimate_factor DEF32_annotation_decimate_factor DEF32_utc_decimate_factor) /\
   sd_align 8 sd_zero = SdOk (mkSigDef DEF8_samples_per_data DEF8_sample_decimate_factor DEF8_entries_per_summary DEF8_summary_decimate_factor DEF32_annotation_decimate_factor DEF32_utc_decimate_factor) /\
   sd_align 16 sd_zero = SdOk (mkSigDef DEF16_samples_per_data DEF16_sample_decimate_factor DEF16_entries_per_summary DEF16_summary_decimate_factor DEF32_annotation_decimate_factor DEF32_utc_decimate_factor) /\
+  sd_align 24 sd_zero = SdOk (mkSigDef DEF32_samples_per_data DEF32_sample_decimate_factor DEF32_entries_per_summary DEF32_summary_decimate_factor DEF32_annotation_decimate_factor DEF32_utc_decimate_factor) /\
   sd_align 32 sd_zero = SdOk (mkSigDef DEF32_samples_per_data DEF32_sample_decimate_factor DEF32_entries_per_summary DEF32_summary_decimate_factor DEF32_annotation_decimate_factor DEF32_utc_decimate_factor) /\
   sd_align 64 sd_zero = SdOk (mkSigDef DEF64_samples_per_data DEF64_sample_decimate_factor DEF64_entries_per_summary DEF64_summary_decimate_factor DEF32_annotation_decimate_factor DEF32_utc_decimate_factor).
 Proof. vm_compute. repeat split; reflexivity. Qed.
 
-(* a non-trivial guarded definition: f32, (1000, 100, 33, 17, 3, 3) -> (208, 104, 34, 17, 3, 3) *)
-Lemma guard_example :
-  sd_guard 32 (mkSigDef 1000 100 33 17 3 3) /\
-  sd_align 32 (mkSigDef 1000 100 33 17 3 3) = SdOk (mkSigDef 208 104 34 17 3 3).
-Proof. split; [apply guardb_iff; vm_compute; reflexivity|vm_compute; reflexivity]. Qed.
+(* non-trivial accepted definitions: f32 (1000, 100, 33, 17, 3, 3) and u24 (100, 11, 100, 10, 5, 5);
+   annotation/sd_utc factors below 10 are raised to 10 *)
+Lemma align_examples :
+  sd_align 32 (mkSigDef 1000 100 33 17 3 3) = SdOk (mkSigDef 208 104 34 17 10 10) /\
+  sd_align 24 (mkSigDef 100 11 100 10 5 5) = SdOk (mkSigDef 128 32 100 10 10 10) /\
+  Consistent 24 (mkSigDef 128 32 100 10 10 10).
+Proof. split; [vm_compute; reflexivity|]. split; [vm_compute; reflexivity|apply consistentb_iff; vm_compute; reflexivity]. Qed.
 
-Lemma guard_example_24 :
-  sd_guard 24 (mkSigDef 100 11 100 10 5 5) /\
-  sd_align 24 (mkSigDef 100 11 100 10 5 5) = SdOk (mkSigDef 100 20 100 10 5 5).
-Proof. split; [apply guardb_iff; vm_compute; reflexivity|vm_compute; reflexivity]. Qed.
+(* rejected definitions: a rounding result that does not fit, and a block buffer that does not fit *)
+Lemma reject_examples :
+  sd_align 32 (mkSigDef 0 4294967295 0 0 0 0) = SdErr JLS_ERROR_PARAMETER_INVALID /\
+  sd_align 64 (mkSigDef 536870912 128 4194304 16 0 0) = SdErr JLS_ERROR_PARAMETER_INVALID /\
+  sd_align 32 (mkSigDef 0 0 70000000 0 0 0) = SdErr JLS_ERROR_PARAMETER_INVALID.
+Proof. vm_compute. repeat split; reflexivity. Qed.
 
 Lemma idem_example :
   let d := mkSigDef 8192 128 640 20 100 100 in
-  In 32 sd_widths /\ Consistent 32 d /\ sdf d mod sd_multiple 32 = 0 /\
-  spd d + sdf d - 1 < U32 /\ eps d + sumdf d - 1 < U32.
+  In 32 sd_widths /\ Consistent 32 d /\ spd d < U32 /\ eps d < U32 /\ sizes_ok 32 d.
 Proof.
   cbv zeta. split; [cbn; tauto|]. split; [apply consistentb_iff; vm_compute; reflexivity|].
-  vm_compute. repeat split; reflexivity.
+  vm_compute. repeat split; try reflexivity; discriminate.
 Qed.
 
-(* --- witnesses --- *)
+(* ------------------------------------------------------------------ *)
+(* documentation of the five defect classes fixed in /repo (591c3d3, e7caa59): *)
+(* what the code did before (sd_align_old) and what it does now (sd_align)      *)
 
-(* u64, sample_decimate_factor = 2^32-6: rounds to 2^32-4 without wrapping, then the
-   rounding of samples_per_data wraps to 0, entries_per_data = 0, SIGFPE in the loop test *)
-Lemma refuted_divzero_spd :
+(* 1. sd_sigdef-overflow-divzero: u64, sample_decimate_factor = 2^32-6 rounded to 2^32-4, then the
+   rounding of samples_per_data wrapped to 0, entries_per_data = 0, SIGFPE in the loop test;
+   f32, sample_decimate_factor = 2^32-1: its own rounding wrapped to 0, SIGFPE in the next rounding *)
+Lemma old_divzero :
   sd_validate 1 1 JLS_SIGNAL_TYPE_FSR JLS_DATATYPE_U64 = 0 /\
-  in_range (mkSigDef 0 4294967290 0 0 0 0) /\
-  sd_align (sample_size JLS_DATATYPE_U64) (mkSigDef 0 4294967290 0 0 0 0) = SdFault SdDivZero.
-Proof. split; [reflexivity|]. split; [apply in_range_b; reflexivity|vm_compute; reflexivity]. Qed.
+  sd_align_old (sample_size JLS_DATATYPE_U64) (mkSigDef 0 4294967290 0 0 0 0) = SdFault SdDivZero /\
+  sd_align (sample_size JLS_DATATYPE_U64) (mkSigDef 0 4294967290 0 0 0 0) = SdErr JLS_ERROR_PARAMETER_INVALID /\
+  sd_align_old (sample_size JLS_DATATYPE_F32) (mkSigDef 0 4294967295 0 0 0 0) = SdFault SdDivZero /\
+  sd_align (sample_size JLS_DATATYPE_F32) (mkSigDef 0 4294967295 0 0 0 0) = SdErr JLS_ERROR_PARAMETER_INVALID.
+Proof. vm_compute. repeat split; reflexivity. Qed.
 
-(* f32, sample_decimate_factor = 2^32-1: the rounding itself wraps to 0, SIGFPE in
-   round_up_to_multiple(samples_per_data, 0) *)
-Lemma refuted_divzero_sdf :
-  sd_validate 1 1 JLS_SIGNAL_TYPE_FSR JLS_DATATYPE_F32 = 0 /\
-  in_range (mkSigDef 0 4294967295 0 0 0 0) /\
-  sd_align (sample_size JLS_DATATYPE_F32) (mkSigDef 0 4294967295 0 0 0 0) = SdFault SdDivZero.
-Proof. split; [reflexivity|]. split; [apply in_range_b; reflexivity|vm_compute; reflexivity]. Qed.
-
-(* f32, entries_per_summary = 2^32-1: rounds (wraps) to 0 and is stored as 0 *)
-Lemma refuted_eps_zero :
-  sd_validate 1 1 JLS_SIGNAL_TYPE_FSR JLS_DATATYPE_F32 = 0 /\
-  in_range (mkSigDef 0 0 4294967295 0 0 0) /\
-  sd_align (sample_size JLS_DATATYPE_F32) (mkSigDef 0 0 4294967295 0 0 0) = SdOk (mkSigDef 8192 128 0 20 100 100) /\
-  ~ Consistent (sample_size JLS_DATATYPE_F32) (mkSigDef 8192 128 0 20 100 100).
+(* 2. sd_sigdef-overflow-inconsistent: f32, entries_per_summary = 2^32-1 wrapped to 0 and was stored as 0 *)
+Lemma old_eps_zero :
+  sd_align_old 32 (mkSigDef 0 0 4294967295 0 0 0) = SdOk (mkSigDef 8192 128 0 20 100 100) /\
+  ~ Consistent 32 (mkSigDef 8192 128 0 20 100 100) /\
+  sd_align 32 (mkSigDef 0 0 4294967295 0 0 0) = SdErr JLS_ERROR_PARAMETER_INVALID.
 Proof.
-  split; [reflexivity|]. split; [apply in_range_b; reflexivity|]. split; [vm_compute; reflexivity|].
+  split; [vm_compute; reflexivity|]. split; [|vm_compute; reflexivity].
   intro H. apply consistentb_iff in H. vm_compute in H. discriminate.
 Qed.
 
-(* i24, everything zero: no defaults at all; annotation/utc factors stay 0 and the
-   level-1 entry covers 240 bits *)
-Lemma refuted_24bit :
-  sd_validate 1 1 JLS_SIGNAL_TYPE_FSR JLS_DATATYPE_I24 = 0 /\
-  sd_align (sample_size JLS_DATATYPE_I24) sd_zero = SdOk (mkSigDef 10 10 10 10 0 0) /\
-  ~ Consistent (sample_size JLS_DATATYPE_I24) (mkSigDef 10 10 10 10 0 0) /\
-  ~ Entry256 (sample_size JLS_DATATYPE_I24) (mkSigDef 10 10 10 10 0 0).
+(* 3. sd_sigdef-24bit-zero-ts-factors and 4. sd_sigdef-24bit-not-256-multiple: i24 took no defaults at all
+   (annotation/sd_utc factors stayed 0) and rounded to multiples of 10 samples = 240 bits *)
+Lemma old_24bit :
+  sd_align_old 24 sd_zero = SdOk (mkSigDef 10 10 10 10 0 0) /\
+  ~ (SUMMARY_DECIMATE_FACTOR_MIN <= sd_anno (mkSigDef 10 10 10 10 0 0)) /\ ~ Entry256 24 (mkSigDef 10 10 10 10 0 0) /\
+  sd_align_old 24 (mkSigDef 100 11 100 10 5 5) = SdOk (mkSigDef 100 20 100 10 5 5) /\
+  ~ Entry256 24 (mkSigDef 100 20 100 10 5 5) /\
+  sd_align 24 sd_zero = SdOk (mkSigDef 8192 128 640 20 100 100) /\
+  sd_align 24 (mkSigDef 100 11 100 10 5 5) = SdOk (mkSigDef 128 32 100 10 10 10).
 Proof.
-  split; [reflexivity|]. split; [vm_compute; reflexivity|]. split.
-  - intro H. apply consistentb_iff in H. vm_compute in H. discriminate.
-  - intro H. apply entry256b_iff in H. vm_compute in H. discriminate.
+  split; [vm_compute; reflexivity|]. split; [vm_compute; intro H; apply H; reflexivity|].
+  split; [intro H; apply entry256b_iff in H; vm_compute in H; discriminate|].
+  split; [vm_compute; reflexivity|].
+  split; [intro H; apply entry256b_iff in H; vm_compute in H; discriminate|].
+  split; vm_compute; reflexivity.
 Qed.
 
-(* u24 with non-zero annotation/utc factors: everything holds except "multiple of 256 bits" *)
-Lemma refuted_24bit_entry256 :
-  sd_guard 24 (mkSigDef 100 11 100 10 5 5) /\
-  sd_align 24 (mkSigDef 100 11 100 10 5 5) = SdOk (mkSigDef 100 20 100 10 5 5) /\
-  Consistent 24 (mkSigDef 100 20 100 10 5 5) /\ ~ Entry256 24 (mkSigDef 100 20 100 10 5 5).
+(* 5. sd_sigdef-renormalise-overflow: a definition whose stored form was consistent but faulted, or was
+   stored differently, when a signal was defined from it again (second file) *)
+Lemma old_renormalise :
+  sd_align_old 64 (mkSigDef 10 3221225472 10 10 0 0) = SdOk (mkSigDef 3221225472 3221225472 10 10 100 100) /\
+  Consistent 64 (mkSigDef 3221225472 3221225472 10 10 100 100) /\
+  sd_align_old 64 (mkSigDef 3221225472 3221225472 10 10 100 100) = SdFault SdDivZero /\
+  sd_align_old 32 (mkSigDef 0 0 10 2147483649 0 0) = SdOk (mkSigDef 384 128 2147483649 2147483649 100 100) /\
+  Consistent 32 (mkSigDef 384 128 2147483649 2147483649 100 100) /\
+  sd_align_old 32 (mkSigDef 384 128 2147483649 2147483649 100 100) = SdOk (mkSigDef 384 128 0 2147483649 100 100) /\
+  sd_align 64 (mkSigDef 10 3221225472 10 10 0 0) = SdErr JLS_ERROR_PARAMETER_INVALID /\
+  sd_align 32 (mkSigDef 0 0 10 2147483649 0 0) = SdErr JLS_ERROR_PARAMETER_INVALID.
 Proof.
-  split; [apply guardb_iff; vm_compute; reflexivity|]. split; [vm_compute; reflexivity|]. split.
-  - apply consistentb_iff. vm_compute. reflexivity.
-  - intro H. apply entry256b_iff in H. vm_compute in H. discriminate.
-Qed.
-
-(* stored parameters that satisfy every relation and fit in 32 bits, yet normalising
-   them again divides by zero: u64 (3*2^30, 3*2^30, 10, 10, 100, 100) *)
-Lemma refuted_idem_consistent_only :
-  let d := mkSigDef 3221225472 3221225472 10 10 100 100 in
-  Consistent 64 d /\ in_range d /\ sdf d mod sd_multiple 64 = 0 /\ sd_align 64 d = SdFault SdDivZero.
-Proof.
-  cbv zeta. split; [apply consistentb_iff; vm_compute; reflexivity|].
-  split; [apply in_range_b; reflexivity|]. split; vm_compute; reflexivity.
-Qed.
-
-(* a definition inside the guard whose normal form is outside it: the second file faults *)
-Lemma refuted_twice_divzero :
-  let d := mkSigDef 10 3221225472 10 10 0 0 in
-  let d' := mkSigDef 3221225472 3221225472 10 10 100 100 in
-  sd_guard 64 d /\ sd_align 64 d = SdOk d' /\ Consistent 64 d' /\ sd_align 64 d' = SdFault SdDivZero.
-Proof.
-  cbv zeta. split; [apply guardb_iff; vm_compute; reflexivity|]. split; [vm_compute; reflexivity|].
-  split; [apply consistentb_iff; vm_compute; reflexivity|vm_compute; reflexivity].
-Qed.
-
-(* the same through entries_per_summary: f32, summary_decimate_factor = 2^31+1; the second
-   pass stores entries_per_summary = 0 *)
-Lemma refuted_twice_changes :
-  let d := mkSigDef 0 0 10 2147483649 0 0 in
-  let d' := mkSigDef 384 128 2147483649 2147483649 100 100 in
-  sd_guard 32 d /\ sd_align 32 d = SdOk d' /\ Consistent 32 d' /\
-  sd_align 32 d' = SdOk (mkSigDef 384 128 0 2147483649 100 100).
-Proof.
-  cbv zeta. split; [apply guardb_iff; vm_compute; reflexivity|]. split; [vm_compute; reflexivity|].
-  split; [apply consistentb_iff; vm_compute; reflexivity|vm_compute; reflexivity].
+  split; [vm_compute; reflexivity|]. split; [apply consistentb_iff; vm_compute; reflexivity|].
+  split; [vm_compute; reflexivity|]. split; [vm_compute; reflexivity|].
+  split; [apply consistentb_iff; vm_compute; reflexivity|].
+  split; [vm_compute; reflexivity|]. split; vm_compute; reflexivity.
 Qed.
